@@ -60,6 +60,16 @@ def step (_ : Unit) (t : List String) : Unit × List String :=
       -- an empty document is parsed a second time as {NULL,0}
       ((), if doc.isEmpty then ls ++ ["W nulldoc"] ++ ls else ls)
     | _, _, _ => ((), ["bad-op"])
+  -- parametrised large documents: the harness checks them against their generating parameters itself
+  -- (harness/xml.c `s_xmlnest`, `s_xmlhuge`); the list model is not run on them
+  | ["xmlnest", n, nm, mode] =>
+    match parseSize? n, parseHex? nm with
+    | some _, some _ => ((), if mode == "s" || mode == "b" then ["P xmlnest ok"] else ["bad-op"])
+    | _, _ => ((), ["bad-op"])
+  | ["xmlhuge", n] =>
+    match parseSize? n with
+    | some _ => ((), ["P xmlhuge ok"])
+    | none => ((), ["bad-op"])
   | _ => ((), ["bad-op"])
 
 def component : Component := { σ := Unit, init := (), step := step }
